@@ -47,28 +47,30 @@ def main() -> int:
                 ck.count()
                 if b != sp and not b.startswith("ERR:InvalidSyntax"):
                     spec_failures.append({"suite": "I-vs-S", "dialect": d, "sql": rec["sql"], "impl": b, "spec": sp})
+        batch, meta = [], []
         for pool, f in POOLS.items():
             for use_as in (True, False):
-                recs = []
-                for s in stmts:
+                for si, s in enumerate(stmts):
                     names = sorted(astgen.local_names(s))
                     order = list(range(len(names)))
                     r.shuffle(order)
                     ren = {nm: f(order[i], d) for i, nm in enumerate(names)}
-                    recs.append({"sql": astgen.to_sql(s, astgen.Opts(rename=ren, use_as=use_as)), "dialect": d, "metadata": None, "config": {}})
-                got = t2tie.summaries(recs)
-                for s, rec, b, g in zip(stmts, recs, base, got):
-                    ck.count()
-                    dist["pools"][pool] = dist["pools"].get(pool, 0) + 1
-                    if b.startswith("ERR:InvalidSyntax") or g.startswith("ERR:InvalidSyntax"):
-                        dist["rejected_by_parser"] += 1
-                        continue
-                    dist["per_dialect"][d] = dist["per_dialect"].get(d, 0) + 1
-                    ck.nontriv((d, pool, use_as, rec["sql"]))
-                    if b != g:
-                        spec_failures.append({"suite": "metamorphic-rename", "dialect": d, "pool": pool, "as_keyword": use_as,
-                                              "original_sql": astgen.to_sql(s), "renamed_sql": rec["sql"], "original_result": b, "renamed_result": g,
-                                              "spec": "renaming statement-local names (or adding/removing AS) leaves tables and end-to-end column pairs unchanged"})
+                    batch.append({"sql": astgen.to_sql(s, astgen.Opts(rename=ren, use_as=use_as)), "dialect": d, "metadata": None, "config": {}})
+                    meta.append((pool, use_as, si))
+        got = t2tie.summaries(batch)
+        for (pool, use_as, si), rec, g in zip(meta, batch, got):
+            s, b = stmts[si], base[si]
+            ck.count()
+            dist["pools"][pool] = dist["pools"].get(pool, 0) + 1
+            if b.startswith("ERR:InvalidSyntax") or g.startswith("ERR:InvalidSyntax"):
+                dist["rejected_by_parser"] += 1
+                continue
+            dist["per_dialect"][d] = dist["per_dialect"].get(d, 0) + 1
+            ck.nontriv((d, pool, use_as, rec["sql"]))
+            if b != g:
+                spec_failures.append({"suite": "metamorphic-rename", "dialect": d, "pool": pool, "as_keyword": use_as,
+                                      "original_sql": astgen.to_sql(s), "renamed_sql": rec["sql"], "original_result": b, "renamed_result": g,
+                                      "spec": "renaming statement-local names (or adding/removing AS) leaves tables and end-to-end column pairs unchanged"})
         # tie on a renamed variant
         recs = []
         for s in stmts[: (40 if quick else 300)]:
